@@ -352,10 +352,10 @@ Lemma pl_seek_step : forall be pid d,
                      | PItem p v rest => if p =? pid then Ok (Some v) else pl_seek be pid rest
                      end.
 Proof.
-  intros. unfold pl_seek. cbn [pl_seek_f].
+  intros. unfold pl_seek at 1. cbn [pl_seek_f].
   destruct (pl_next be d) as [| |p v rest] eqn:E; try reflexivity.
   destruct (p =? pid); [reflexivity|].
-  pose proof (pl_next_shorter _ _ _ _ _ E). apply pl_seek_f_fuel; lia.
+  pose proof (pl_next_shorter _ _ _ _ _ E). unfold pl_seek. apply pl_seek_f_fuel; lia.
 Qed.
 Lemma pl_all_step : forall {A} be pid (dec : bytes -> res A) d,
   pl_all be pid dec d = match pl_next be d with
@@ -366,9 +366,9 @@ Lemma pl_all_step : forall {A} be pid (dec : bytes -> res A) d,
                             else pl_all be pid dec rest
                         end.
 Proof.
-  intros. unfold pl_all. cbn [pl_all_f].
+  intros. unfold pl_all at 1. cbn [pl_all_f].
   destruct (pl_next be d) as [| |p v rest] eqn:E; try reflexivity.
-  pose proof (pl_next_shorter _ _ _ _ _ E).
+  pose proof (pl_next_shorter _ _ _ _ _ E). unfold pl_all.
   rewrite (pl_all_f_fuel (length d) (S (length rest)) be pid dec rest) by lia. reflexivity.
 Qed.
 
